@@ -950,6 +950,40 @@ impl<'r> Gen<'r> {
         // functions
         let nf = if self.o.max_funcs == 0 { 0 } else { self.rng.below(self.o.max_funcs + 1) };
         let mut fdefs: Vec<AST> = Vec::new();
+        // sometimes a wide function: 9-14 scalar parameters, result mixes far-apart ones
+        if nf > 0 && self.rng.chance(1, 5) {
+            let name = self.fresh("wide");
+            let k = 9 + self.rng.below(6);
+            let params: Vec<Ty> = (0..k).map(|i| if i % 4 == 3 { Ty::Bool } else { Ty::Int }).collect();
+            let ints: Vec<usize> = (0..k).filter(|i| i % 4 != 3).collect();
+            let a = ints[0];
+            let b = ints[ints.len() - 1];
+            let c = ints[ints.len() / 2];
+            let body = AST::block(vec![
+                AST::print(format!("<{}:~,~,~>", name), vec![var(&format!("p{}", k - 1)), var(&format!("p{}", 3.min(k - 1))), var(&format!("p{}", c))]),
+                op("-", op("+", var(&format!("p{}", a)), op("*", var(&format!("p{}", b)), AST::Integer(3))), var(&format!("p{}", c))),
+            ]);
+            let pnames: Vec<Identifier> = (0..k).map(|i| id(&format!("p{}", i))).collect();
+            fdefs.push(AST::function(id(&name), pnames, body));
+            self.funcs.push(Sig { name, params, ret: Ty::Int });
+        }
+        // sometimes a mutually recursive pair with a decreasing counter
+        if nf > 0 && self.rng.chance(1, 5) {
+            let na = self.fresh("ma");
+            let nb = self.fresh("mb");
+            let extra = self.random_scalar();
+            let ret = self.random_scalar();
+            let params = vec![Ty::Int, extra];
+            let sa = Sig { name: na.clone(), params: params.clone(), ret: ret.clone() };
+            let sb = Sig { name: nb.clone(), params: params.clone(), ret: ret.clone() };
+            // ma calls mb(n - 1, …) and mb calls ma(n - 1, …)
+            let ba = self.callee_body(&params, &ret, None, Some(sb.clone()), depth.min(2));
+            let bb = self.callee_body(&params, &ret, None, Some(sa.clone()), depth.min(2));
+            fdefs.push(AST::function(id(&na), vec![id("n"), id("p1")], ba));
+            fdefs.push(AST::function(id(&nb), vec![id("n"), id("p1")], bb));
+            self.funcs.push(sa);
+            self.funcs.push(sb);
+        }
         for _ in 0..nf {
             let name = self.fresh("f");
             let recursive = self.rng.chance(1, 3);
@@ -1019,7 +1053,10 @@ pub fn clamp_recursion_counters(top: &mut AST) {
                 let is_rec = rec.iter().any(|r| r == name.as_str());
                 for (i, x) in arguments.iter_mut().enumerate() {
                     if is_rec && i == 0 {
-                        let self_call = inside == Some(name.as_str());
+                        let decreasing = matches!(&**x, AST::CallMethod { object, name: m, arguments: a }
+                            if m.as_str() == "-" && a.len() == 1 && matches!(&**object, AST::AccessVariable { name: v } if v.as_str() == "n") && matches!(&*a[0], AST::Integer(1)));
+                        let inside_rec = inside.map(|f| rec.iter().any(|r| r == f)).unwrap_or(false);
+                        let self_call = inside == Some(name.as_str()) || (inside_rec && decreasing);
                         if !self_call {
                             // outside callers: literal 0..5 derived from the existing expression's shape
                             let k = (count_nodes(x) % 6) as i32;
@@ -1181,7 +1218,7 @@ pub fn well_behaved(rng: &mut Rng, opts: GenOpts) -> AST {
 // ---------------------------------------------------------------------------------------------
 // Fault injection (C10): insert one faulting statement at a statement position.
 
-pub const FAULT_CLASSES: [&str; 20] = [
+pub const FAULT_CLASSES: [&str; 36] = [
     "unknown-variable-read",
     "unknown-variable-write",
     "unknown-function",
@@ -1202,6 +1239,22 @@ pub const FAULT_CLASSES: [&str; 20] = [
     "div-zero",
     "mod-zero",
     "field-on-primitive",
+    "method-on-null",
+    "operator-on-null",
+    "operator-on-array",
+    "equality-on-array",
+    "unknown-method-array",
+    "unknown-method-bool",
+    "index-boolean",
+    "index-null",
+    "index-object",
+    "array-get-arity",
+    "array-set-arity",
+    "field-get-on-array",
+    "field-set-on-null",
+    "size-object",
+    "min-div-minus-one",
+    "bool-operator-int-argument",
 ];
 
 pub fn fault_statement(class: &str, tag: usize) -> Vec<AST> {
@@ -1241,6 +1294,22 @@ pub fn fault_statement(class: &str, tag: usize) -> Vec<AST> {
         "div-zero" => op("/", AST::Integer(7), AST::Integer(0)),
         "mod-zero" => op("%", AST::Integer(7), op("-", AST::Integer(1), AST::Integer(1))),
         "field-on-primitive" => AST::access_field(AST::Integer(5), id("fx")),
+        "method-on-null" => AST::call_method(AST::Null, id("fm"), vec![AST::Integer(1)]),
+        "operator-on-null" => op("+", AST::Null, AST::Integer(1)),
+        "operator-on-array" => op("+", AST::array(AST::Integer(1), AST::Integer(0)), AST::Integer(1)),
+        "equality-on-array" => op("==", AST::array(AST::Integer(1), AST::Integer(0)), AST::Null),
+        "unknown-method-array" => AST::call_method(AST::array(AST::Integer(1), AST::Integer(0)), id("length"), vec![]),
+        "unknown-method-bool" => op("+", AST::Boolean(true), AST::Boolean(false)),
+        "index-boolean" => AST::access_array(AST::array(AST::Integer(2), AST::Integer(0)), AST::Boolean(true)),
+        "index-null" => AST::assign_array(AST::array(AST::Integer(2), AST::Integer(0)), AST::Null, AST::Integer(1)),
+        "index-object" => AST::access_array(AST::array(AST::Integer(2), AST::Integer(0)), obj()),
+        "array-get-arity" => AST::call_method(AST::array(AST::Integer(2), AST::Integer(0)), id("get"), vec![AST::Integer(0), AST::Integer(1)]),
+        "array-set-arity" => AST::call_method(AST::array(AST::Integer(2), AST::Integer(0)), id("set"), vec![AST::Integer(0)]),
+        "field-get-on-array" => AST::access_field(AST::array(AST::Integer(1), AST::Integer(0)), id("fx")),
+        "field-set-on-null" => AST::assign_field(AST::Null, id("fx"), AST::Integer(1)),
+        "size-object" => AST::array(obj(), AST::Integer(0)),
+        "min-div-minus-one" => op("/", AST::Integer(i32::MIN), op("-", AST::Integer(0), AST::Integer(1))),
+        "bool-operator-int-argument" => op("|", AST::Boolean(false), AST::Integer(1)),
         _ => AST::Null,
     };
     vec![pre, f]
@@ -1672,4 +1741,28 @@ pub fn matrix_program(ci: usize, xi: usize) -> (String, String) {
 
 pub fn matrix_size() -> usize {
     MATRIX_CONSTRUCTS.len() * MATRIX_CONTEXTS.len()
+}
+
+/// Does the program contain an array whose size expression mentions an integer literal beyond
+/// `limit`? Such programs are not executed by the harness (a single `array(2147483647, 0)` asks
+/// the VM for tens of gigabytes).
+pub fn has_huge_array_size(a: &AST, limit: i64) -> bool {
+    fn lit_beyond(a: &AST, limit: i64) -> bool {
+        if let AST::Integer(i) = a {
+            if (*i as i64).abs() > limit {
+                return true;
+            }
+        }
+        let mut found = false;
+        for_each_child(a, &mut |c| found = found || lit_beyond(c, limit));
+        found
+    }
+    if let AST::Array { size, .. } = a {
+        if lit_beyond(size, limit) {
+            return true;
+        }
+    }
+    let mut found = false;
+    for_each_child(a, &mut |c| found = found || has_huge_array_size(c, limit));
+    found
 }
